@@ -10,6 +10,7 @@ not returned; it is never read by the computation of `howell`).
 Imperative style (`Id.run do`, mutable arrays) to stay close to the C text.  Core Lean only.
 -/
 import SqiModel.Intbig
+import SqiModel.HowellUnit
 namespace SqiModel.Howell
 open SqiModel.Intbig
 
@@ -21,24 +22,7 @@ def s (a : M) (i j : Nat) (v : Int) : M := a.setIfInBounds i ((a.getD i #[]).set
 def ofLists (l : List (List Int)) : M := (l.map List.toArray).toArray
 def toLists (a : M) : List (List Int) := (a.map Array.toList).toList
 
-def gcdI (a b : Int) : Int := (gcdext a b).1
-
-/-- `unit(unit, gcd, x, mod)`: (found, u, gcd) with gcd(u, mod) = 1 and u·x ≡ gcd(x, mod) -/
-def unit (x mod : Int) : Bool × Int × Int :=
-  if x = 0 then (false, 0, 0) else Id.run do
-    let (gcd, u, _) := ibzXgcd x mod
-    let nmod := (ibzDiv mod gcd).1
-    let stab0 := gcdI u nmod
-    let nmod2 := (ibzDiv mod stab0).1
-    let mut stab := (ibzDiv u stab0).1
-    -- for (int i = ibz_bitsize(&nmod2); i > 0; i >>= 1)
-    let iters := let b := sizeInBase2 nmod2; if b = 0 then 0 else b.log2 + 1
-    for _ in [0:iters] do
-      stab := ibzMod (stab * stab) nmod2
-    stab := gcdI stab nmod2
-    stab := (ibzDiv nmod2 stab).1
-    stab := stab * nmod
-    return (true, ibzMod (u + stab) mod, gcd)
+-- `gcdI` and `unit` (the Stabilizer/Split helper, proved in SqiProofs.C17.Unit) live in SqiModel.HowellUnit
 
 /-- `gen_elem`: (col j | col k) ← (col j | col k)·U on rows start..end-1, U = [[u00,u01],[u10,u11]] -/
 def genElem (a : M) (j k start stop : Nat) (u00 u01 u10 u11 mod : Int) : M := Id.run do
